@@ -12,6 +12,7 @@ import core   # noqa: E402
 import tlc    # noqa: E402
 
 RE_REACHED = re.compile(r'<<"REACHED", (\d+), (\d+), (\d+)>>')
+RE_UNSAFE = re.compile(r'<<"UNSAFE", (\d+), (\d+)>>')
 
 
 def tla_const(v):
@@ -95,14 +96,96 @@ def validate_groups(work, trace_module, groups, invariant="TraceInv", timeout=90
                     env_extra={"TRACE_FILE": tf}, heap="3g")
         return name, r
     reached, problems = {}, []
+    unsafe = {}
     with cf.ThreadPoolExecutor(8) as ex:
         for name, r in ex.map(one, jobs):
             for a, b, c in RE_REACHED.findall(r.out):
                 reached[int(a)] = (int(b), int(c))
+            for a, b in RE_UNSAFE.findall(r.out):
+                unsafe.setdefault(int(a), set()).add(int(b))
             if r.violated:
                 m = re.search(r"tid = (\d+)", r.out[r.out.find("Error:"):])
                 problems.append((name, "invariant " + r.violated, tlc.counterexample(r.out, 2500)))
             elif r.error:
                 problems.append((name, "error", r.error[:1500]))
     shutil.rmtree(d, ignore_errors=True)
+    validate_groups.unsafe = unsafe
     return reached, problems
+
+
+def node_engine(res, work, *, node, trace_module, cfgs, consts_of, adapt, attribute, seed, depth, limit, nrandom,
+                default_prop, mutant=None, maxlen=14, nontrivial=None, group_key=None):
+    """drive the real node, adapt the logs, validate against the trace module, fill res"""
+    runs = drive(work, cfgs, seed, depth=depth, limit=limit, nrandom=nrandom, mutant=mutant, maxlen=maxlen)
+    groups, traces = {}, {}
+    for i, r in enumerate(runs, start=1):
+        t = adapt(r)
+        key = group_key(r["cfg"]) if group_key else json.dumps(r["cfg"], sort_keys=True)
+        groups.setdefault(key, (r["cfg"], []))[1].append({"id": i, "ev": t})
+        traces[i] = (r, t)
+    glist = [("%s %s" % (node, json.dumps(c, sort_keys=True)), consts_of(c), ts) for c, ts in groups.values()]
+    reached, problems = validate_groups(work, trace_module, glist)
+    res.traces += len(runs)
+    res.evaluations += sum(len(t[1]) for t in traces.values())
+    for name, kind, detail in problems:
+        if kind == "error":
+            raise core.MachineryError("%s failed on %s: %s" % (trace_module, name, detail[:800]))
+        inv = kind.split()[-1]
+        res.violations.append(dict(property=default_prop, engine=res.name, clause=inv,
+                                   what="a recorded run of the real %s node violates %s (%s)" % (node, inv, name),
+                                   detail=detail, signature=dict(kind="trace-invariant", clause=inv, node=node)))
+    nt = set()
+    unsafe = getattr(validate_groups, "unsafe", {})
+    for i, (r, t) in traces.items():
+        got = reached.get(i)
+        if got is None:
+            continue
+        # CbSafe (C04) became false at these events of an otherwise conforming prefix
+        for lidx in sorted(unsafe.get(i, ())):
+            if lidx < got[0] or got[0] >= got[1]:
+                evt = t[lidx - 1]
+                res.violations.append(dict(
+                    property="C04", engine=res.name, clause="CbSafe",
+                    what="%s %s schedule '%s': at event #%d %s the completion callback of an element fires while it is "
+                         "still in flight" % (node, json.dumps(r["cfg"], sort_keys=True), " ".join(r["schedule"]), lidx, evt),
+                    signature=dict(kind="premature-callback", node=node, event=evt["ev"]),
+                    replay=dict(engine=res.name, cfg=r["cfg"], schedule=r["schedule"], at=lidx, trace=t[:lidx + 1])))
+        if got[0] >= got[1]:
+            res.accepted += 1
+            if nontrivial is None or nontrivial(r, t):
+                nt.add(json.dumps(r["cfg"], sort_keys=True) + " ".join(r["schedule"]))
+        else:
+            prop, why = attribute(r, t, got[0])
+            evt = t[got[0] - 1] if got[0] <= len(t) else {"ev": "end"}
+            res.violations.append(dict(
+                property=prop, engine=res.name, clause=evt["ev"],
+                what="%s %s schedule '%s': event #%d %s -- %s" % (
+                    node, json.dumps(r["cfg"], sort_keys=True), " ".join(r["schedule"]), got[0], evt, why),
+                signature=dict(kind="trace", node=node, event=evt["ev"]),
+                replay=dict(engine=res.name, cfg=r["cfg"], schedule=r["schedule"], at=got[0], trace=t[:got[0] + 2])))
+    res.nontrivial += len(nt)
+    for r in runs[:2]:
+        res.samples.append(dict(cfg=r["cfg"], schedule=" ".join(r["schedule"]),
+                                deliveries=[[e["x"], e["t"]] for e in r["ev"] if e["ev"] == "deliver"]))
+    return runs
+
+
+def spec_violation(res, r, rec, inv_prop, default_prop, node):
+    if not r.ok:
+        res.violations.append(dict(property=inv_prop.get(r.violated or "", default_prop), engine=res.name,
+                                   clause=r.violated or "tlc-error",
+                                   what="%s violates %s for %s" % (rec["name"], r.violated or (r.error or "")[:200], rec["constants"]),
+                                   detail=tlc.counterexample(r.out, 2500),
+                                   signature=dict(kind="spec", clause=r.violated or "error", node=node)))
+
+
+def premature(trace, idx, e, deliver_ev="CbEmit", done_ev="ConsumerDone", sync=False):
+    """was element e's consumer still unfinished (or not even started) just before event idx?"""
+    started = finished = False
+    for x in trace[:idx - 1]:
+        if x["ev"] == deliver_ev and (x.get("e") == e or e in (x.get("es") or [])):
+            started = True
+            finished = sync
+        if x["ev"] == done_ev and started and (x.get("e") in (None, e) or e in (x.get("es") or [])):
+            finished = True
+    return not (started and finished)
